@@ -56,6 +56,16 @@ N3 ==
     /\ dev = Cfg(A, [n \in {"Netspoc-" \o x : x \in UsedG(A, {"g0", "g1"})} |-> IF n = "Netspoc-g0" THEN da ELSE db], FALSE)
     /\ tgt = Cfg(B, [n \in {"Netspoc-" \o x : x \in UsedG(B, {"g0", "g1"})} |-> IF n = "Netspoc-g0" THEN ta ELSE tb], FALSE)
 
+(* N5: services of the other resource types: ICMP with type 0 / 8 / 8 code 0 / every type, IP protocol 50 / 51; *)
+(* same name on both sides, neighbouring definitions                                                           *)
+SvcVals == {"ICMP/0", "ICMP/8", "ICMP/8.0", "ICMP/", "IPP/50", "IPP/51", "TCP/80"}
+N5 ==
+  \E dv \in SvcVals \cup {"none"}, tv \in SvcVals :
+    LET rule == [r1 |-> R(20, "ALLOW", "OUT", "ANY", "10.1.2.30", "s:Netspoc-svc")]
+    IN /\ dev = IF dv = "none" THEN [policies |-> NoFn, groups |-> NoFn, services |-> NoFn]
+                ELSE [policies |-> [p \in {"Netspoc-v1"} |-> rule], groups |-> NoFn, services |-> [n \in {"Netspoc-svc"} |-> dv]]
+       /\ tgt = [policies |-> [p \in {"Netspoc-v1"} |-> rule], groups |-> NoFn, services |-> [n \in {"Netspoc-svc"} |-> tv]]
+
 (* N4: the manager holds Netspoc-g0 and Netspoc-g0-1 (the result of an earlier approve that had to rename a *)
 (* clashing group); the target again has g0 / g1 with any contents                                            *)
 N4 ==
@@ -101,7 +111,7 @@ M2 ==
           /\ tgt = v4 @@ [parts |-> [craw |-> [policies |-> rawpol, groups |-> NoFn, services |-> NoFn],
                                      merged |-> [policies |-> mpol, groups |-> gm, services |-> v4.services]]]
 
-Init == CASE Fam = "N4" -> N4 [] Fam = "M2" -> M2 [] Fam = "M1" -> M1 [] Fam = "N3" -> N3 [] Fam = "N1" -> N1 [] Fam = "N2" -> N2
+Init == CASE Fam = "N5" -> N5 [] Fam = "N4" -> N4 [] Fam = "M2" -> M2 [] Fam = "M1" -> M1 [] Fam = "N3" -> N3 [] Fam = "N1" -> N1 [] Fam = "N2" -> N2
 Next == UNCHANGED <<dev, tgt>>
 HasTie == \E g, h \in DOMAIN dev.groups : g # h /\ dev.groups[g] = dev.groups[h]
 Out == PrintT(<<"VOUT", ToJson([fam |-> Fam, dev |-> dev, tgt |-> tgt, tie |-> HasTie])>>)
